@@ -145,6 +145,7 @@ structure Block where
   next : List Nat
   prev : List Nat
   sub : Option String        -- owning subroutine (`none` for blocks never assigned one: unreachable)
+  exitNexts : Nat := 0       -- len(exit_instr.next) as built by passes 1-2
 deriving Repr, Inhabited, DecidableEq
 
 structure Teal where
@@ -170,25 +171,19 @@ def callsubTable (ins : List Ins) : List (String × List Nat) :=
       else acc ++ [(l, [k])]
     | _ => acc) []
 
-/-- Python iterating a list while removing the current element: visits positions 0, 2, 4, … -/
-def skipIter : List α → List α × List α      -- (visited, left in the list)
-  | [] => ([], [])
-  | [x] => ([x], [])
-  | x :: y :: rest => let (v, l) := skipIter rest; (x :: v, y :: l)
-
 def exitOp (ins : List Ins) (b : RawBlock) : Option Op :=
   b.ins.getLast?.bind fun k => ins[k]?.map (·.op)
 
 /-- the pruning loop of parse_teal (l.538-552) applied to one unreachable block `bi` -/
 def pruneOne (bs : List RawBlock) (bi : Nat) : Except Err (List RawBlock) := do
-  let (visited, left) := skipIter (bs[bi]!).next
+  let (visited, left) := ((bs[bi]!).next, ([] : List Nat))   -- `for bnext in list(bi.next)`
   let bs ← visited.foldlM (init := bs) fun bs bn => do
     let p ← removeFirst (bs[bn]!).prev bi
     pure ((bs.zipIdx).map fun (blk, id) => if id == bn then { blk with prev := p } else blk)
   pure ((bs.zipIdx).map fun (blk, id) => if id == bi then { blk with next := left } else blk)
 
 def pruneIns (nexts prevs : List (List Nat)) (ex : Nat) : Except Err (List (List Nat) × List (List Nat)) := do
-  let (visited, left) := skipIter (nexts[ex]!)
+  let (visited, left) := (nexts[ex]!, ([] : List Nat))
   let prevs ← visited.foldlM (init := prevs) fun prevs t => do
     let p ← removeFirst (prevs[t]!) ex
     pure ((prevs.zipIdx).map fun (l, id) => if id == t then p else l)
@@ -238,7 +233,8 @@ def parseTeal (ins : List Ins) : Except Err Teal := do
   let deadIns := dead.flatMap fun b => (bs[b]!).ins
   let live := (List.range bs.length).filter reachable.contains
   let allBlocks := (bsP.zipIdx).map fun (b, id) =>
-    { idx := id, ins := b.ins.filterMap (ins[·]?), next := b.next, prev := b.prev, sub := owner id : Block }
+    { idx := id, ins := b.ins.filterMap (ins[·]?), next := b.next, prev := b.prev, sub := owner id,
+      exitNexts := match b.ins.getLast? with | some ex => (nexts[ex]!).length | none => 0 : Block }
   -- constant block: known only when there is exactly one intcblock and it is in the entry block
   let icb := (ins.zipIdx).filterMap fun (i, k) => match i.op with | .intcblock cs => some (k, cs) | _ => none
   let intcs := match icb with
